@@ -192,10 +192,11 @@ pub fn run_entry1(w: &World, c: &Case, cache: &mut Cache, mon: &mut Monitor, sha
         return outcome;
     }
     let accepted = matches!(res, Ok(Ok(_)));
-    if mon.wants_sample() && (index % 97 == 3) {
+    if mon.counter("sampled/e1") < 2 && (index % 97 == 3) {
+        mon.count("sampled/e1");
         mon.sample(json!({"entry": entry, "class": c.class, "false_conjuncts": fs, "outcome": outcome,
-            "announced": c.sub.ann, "true_kes_evolution": truth.kes_t, "derived_pool": truth.derived,
-            "distribution_stake": truth.stake}));
+            "true_kes_evolution": truth.kes_t, "derived_pool": truth.derived, "distribution_stake": truth.stake,
+            "stake_distribution": c.dist, "pre_registered": c.pre.len(), "submission": c.sub.to_json()}));
     }
     // --- soundness
     if accepted && !truth.all() {
